@@ -428,6 +428,9 @@ func c19Run(spec json.RawMessage) CaseOut {
 	tags := []string{fmt.Sprintf("registrations=%d", len(sp.Regs))}
 	for _, r := range sp.Regs {
 		tags = append(tags, "name:"+c19NameClass(unq(r.N)))
+		if r.D >= 10 {
+			tags = append(tags, "decoration-written-field-by-field")
+		}
 	}
 	for c := range classes {
 		tags = append(tags, "query:"+c)
@@ -493,12 +496,16 @@ var c19Pool = []string{
 	"csv.foo", "marKdown", "x", "texttable.x", "Texttable.my.dotted", "utf8-light.x", "none.none",
 }
 
+var c19AppDecs = []int{7, 10, 8, 11, 9, 12, 13}
+
 func c19Gen(r *RNG, tier string) []json.RawMessage {
+	paletteInit()
 	var out []json.RawMessage
 	add := func(names ...string) {
 		var sp C19Spec
 		for i, n := range names {
-			sp.Regs = append(sp.Regs, C19Reg{N: qname(n), D: 7 + (i+len(n))%3})
+			// application decorations: Populate()d ones and ones written field by field
+			sp.Regs = append(sp.Regs, C19Reg{N: qname(n), D: c19AppDecs[(i+len(n))%len(c19AppDecs)]})
 		}
 		sp.Full = tier == "thorough" || len(out)%10 == 0
 		out = append(out, mustJSON(sp))
@@ -517,6 +524,12 @@ func c19Gen(r *RNG, tier string) []json.RawMessage {
 	add("my.dotted", "my.dotted") // overwrite
 	add("csv", "csv.foo", "CSV")
 	add("", ".", "..")
+	for _, d := range []int{10, 11, 12, 13} {
+		for _, n := range []string{"acme-explicit", "acme.explicit"} {
+			out = append(out, mustJSON(C19Spec{Regs: []C19Reg{{N: qname(n), D: d}}}))
+		}
+	}
+	add("w1", "w2", "w3", "w4", "w5", "w6", "w7")
 	n := 10
 	if tier == "thorough" {
 		n = 400
@@ -541,7 +554,7 @@ func c19Gen(r *RNG, tier string) []json.RawMessage {
 		}
 		var sp C19Spec
 		for _, nm := range names {
-			sp.Regs = append(sp.Regs, C19Reg{N: qname(nm), D: 1 + r.Intn(9)})
+			sp.Regs = append(sp.Regs, C19Reg{N: qname(nm), D: 1 + r.Intn(len(regPalette)-1)})
 		}
 		sp.Full = tier == "thorough" || i%5 == 0
 		out = append(out, mustJSON(sp))
@@ -579,7 +592,8 @@ func init() {
 		ModelFn:  "C19_model",
 		Rule: "registry worlds, one child process each: the initial registry; every single name of a pool (plain, upper-case, dotted, dotted with registered prefix, three sections, " +
 			"equal to a sub-package name, case variant of one, empty string, trailing dot, leading dot, dots only, non-UTF-8 bytes, a built-in overwritten, 'csv.foo', a name that only lower-cases " +
-			"to 'markdown' through U+212A, and the guard class 'texttable.x'); chosen orders of a dotted name and its prefixes; random worlds of 2-4 names; usable decorations only. " +
+			"to 'markdown' through U+212A, and the class 'texttable.x'); chosen orders of a dotted name and its prefixes; a world of 7 names; random worlds of 2-4 names; " +
+			"decorations: the built-ins, Populate()d ones and four written field by field without Populate (render fields only; only Horizontal/Vertical; a single field; verticals only) - anything but the zero value. " +
 			"Before the first and after each registration: ListStyles and, per listed name, the name itself and 'texttable.'+name; after the last registration also case variants, " +
 			"'TextTable.' prefixes and trailing sections of every listed name, all five sub-package names in 5 ASCII case variants x 6 trailing forms, and 28 unknown/hostile strings. " +
 			"A case is non-trivial when it registers something; distinct = distinct worlds",
